@@ -42,7 +42,7 @@ OBS += [
 DD = ['ARENA_N=4', 'ARENA_CHUNK=64']
 UNITS += [Unit('jd_dd', 'wrappers/jd.cpp', defs=DD)]
 for pl in (2, 5):
-    OBS.append(Ob(['C06', 'C14', 'C01'], 'dedup_json_pre%d' % pl, 'jd_dd', 'harness/dedup.c', 'h_dedup', defs=['UNIT_H="jd_dd.h"', 'PRELEN=%d' % pl], unwind=14, cap=300, hunwind=12, fs=512,
+    OBS.append(Ob(['C06', 'C14', 'C01', 'C07'], 'dedup_json_pre%d' % pl, 'jd_dd', 'harness/dedup.c', 'h_dedup', defs=['UNIT_H="jd_dd.h"', 'PRELEN=%d' % pl], unwind=14, cap=300, hunwind=12, fs=512,
         desc='parseStringValue of "ab\\u0000cd" into a pool holding one string of %d symbolic bytes: full length kept, shared iff identical, reference count exact (StringBuilder::save / StringPool)' % pl,
         bound='all values of the %d bytes of the pre-existing string' % pl))
 UNITS += [Unit('jd_num', 'wrappers/jd.cpp', defs=SM, cuts={'CUT_PARSENUMBER': r'6detail11parseNumberEPKc$'})]
